@@ -1,8 +1,14 @@
 use crate::engine::Run;
 
 pub mod c06;
+pub mod c07;
+pub mod c08;
+pub mod c09;
 pub mod linerules;
 
 pub const TABLE: &[(&str, fn(&mut Run))] = &[
     ("C06", c06::run),
+    ("C07", c07::run),
+    ("C08", c08::run),
+    ("C09", c09::run),
 ];
